@@ -3,6 +3,7 @@
 mod common;
 mod chain;
 mod env;
+mod idl;
 mod rx;
 mod ser;
 mod server;
@@ -37,6 +38,8 @@ fn main() {
         "rx" => rx::main(&o),
         "rx-bounds" => rx::main_bounds(&o),
         "chain" => chain::main(&o),
+        "idl" => idl::main_idl(&o),
+        "idlrt" => idl::main_idlrt(&o),
         "reply" => env::main_reply(&o),
         "envelope" => env::main_envelope(&o),
         "ser" => ser::main(&o),
